@@ -65,6 +65,8 @@ pub struct NpoSel {
     pub recompose: bool,
     /// run p3-lookup's multiset debugger inside `prove` (panics with details on imbalance)
     pub debug_lookups: bool,
+    /// register the Poseidon2 permutation table for this configuration (D=4 circuits only)
+    pub poseidon2: Option<p3_circuit::ops::Poseidon2Config>,
 }
 
 /// One WitnessChecks bus interaction decoded from a committed preprocessed trace.
@@ -166,6 +168,42 @@ fn decode_alu_sched(flat: &[u64], width: usize, k: usize, p: u64, d: u64, out: &
     }
 }
 
+/// Poseidon2 table support (only the degree-4 circuit fields have it here).
+pub trait PosSupport<SC: StarkGenericConfig + 'static, const D: usize> {
+    #[allow(clippy::type_complexity)]
+    fn poseidon2_parts(
+        _cfg: p3_circuit::ops::Poseidon2Config,
+    ) -> Option<(Box<dyn NpoPreprocessor<Val<SC>>>, Vec<Box<dyn NpoAirBuilder<SC, D>>>)> {
+        None
+    }
+    fn register_poseidon2(_prover: &mut BatchStarkProver<SC>, _cfg: p3_circuit::ops::Poseidon2Config) {}
+}
+
+macro_rules! impl_pos_d4 {
+    ($ty:ty, $sc:ty) => {
+        impl PosSupport<$sc, 4> for $ty {
+            fn poseidon2_parts(
+                _cfg: p3_circuit::ops::Poseidon2Config,
+            ) -> Option<(Box<dyn NpoPreprocessor<Val<$sc>>>, Vec<Box<dyn NpoAirBuilder<$sc, 4>>>)> {
+                Some((
+                    p3_circuit_prover::batch_stark_prover::poseidon2_preprocessor::<Val<$sc>>(),
+                    p3_circuit_prover::batch_stark_prover::poseidon2_air_builders::<$sc, 4>(),
+                ))
+            }
+            fn register_poseidon2(prover: &mut BatchStarkProver<$sc>, cfg: p3_circuit::ops::Poseidon2Config) {
+                prover.register_poseidon2_table::<4>(cfg);
+            }
+        }
+    };
+}
+impl_pos_d4!(Bb4, BabyBearConfig);
+impl_pos_d4!(Kb4, KoalaBearConfig);
+impl PosSupport<BabyBearConfig, 1> for Bb1 {}
+impl PosSupport<KoalaBearConfig, 1> for Kb1 {}
+impl PosSupport<KoalaBearConfig, 5> for Kb5 {}
+impl PosSupport<GoldilocksConfig, 1> for Gl1 {}
+impl PosSupport<GoldilocksConfig, 2> for Gl2 {}
+
 pub trait Pv: Fc {
     type SC: StarkGenericConfig + 'static + Send + Sync;
 
@@ -225,6 +263,15 @@ macro_rules! impl_pv {
                 use p3_matrix::Matrix;
                 let mut npo_prep: Vec<Box<dyn NpoPreprocessor<Val<$sc>>>> = vec![];
                 let mut air_builders: Vec<Box<dyn NpoAirBuilder<$sc, $d>>> = vec![];
+                if let Some(pc) = npo.poseidon2 {
+                    match <Self as PosSupport<$sc, $d>>::poseidon2_parts(pc) {
+                        Some((prep, builders)) => {
+                            npo_prep.push(prep);
+                            air_builders.extend(builders);
+                        }
+                        None => return Err(PvErr::Setup("Poseidon2 table not supported for this field configuration".into())),
+                    }
+                }
                 if npo.recompose && $d > 1 {
                     npo_prep.push(recompose_preprocessor::<Val<$sc>>(true));
                     air_builders.extend(recompose_air_builders::<$sc, $d>(1, true));
@@ -313,6 +360,15 @@ macro_rules! impl_pv {
             ) -> Result<Setup<Self::SC>, PvErr> {
                 let mut npo_prep: Vec<Box<dyn NpoPreprocessor<Val<$sc>>>> = vec![];
                 let mut air_builders: Vec<Box<dyn NpoAirBuilder<$sc, $d>>> = vec![];
+                if let Some(pc) = npo.poseidon2 {
+                    match <Self as PosSupport<$sc, $d>>::poseidon2_parts(pc) {
+                        Some((prep, builders)) => {
+                            npo_prep.push(prep);
+                            air_builders.extend(builders);
+                        }
+                        None => return Err(PvErr::Setup("Poseidon2 table not supported for this field configuration".into())),
+                    }
+                }
                 if npo.recompose && $d > 1 {
                     npo_prep.push(recompose_preprocessor::<Val<$sc>>(true));
                     air_builders.extend(recompose_air_builders::<$sc, $d>(1, true));
@@ -339,6 +395,9 @@ macro_rules! impl_pv {
                 };
                 let cpd = CircuitProverData::new(pd, prim, nonprim);
                 let mut prover = BatchStarkProver::new(cfg).with_table_packing(packing.clone());
+                if let Some(pc) = npo.poseidon2 {
+                    <Self as PosSupport<$sc, $d>>::register_poseidon2(&mut prover, pc);
+                }
                 if npo.recompose && $d > 1 {
                     prover.register_recompose_table::<$d>(true);
                 }
